@@ -79,12 +79,15 @@ def make_queries(snap: dict, seed: int, thorough: bool) -> list[dict]:
             ident = False
         return "ok", mod, name, ident
 
+    calls = []
+
     def add(fname, kind, valid, api, key, version, etype, want, args, tag=""):
         out, mod, name, ident = run(getattr(ix, fname), args, want)
         qs.append({"id": f"q{len(qs)}", "fn": fname, "tag": tag, "kind": kind, "valid": valid,
                    "api": api if isinstance(api, str) else "", "key": _clamp(key), "version": _clamp(version),
                    "etype": etype if isinstance(etype, str) else "", "want": want,
                    "out": out, "module": mod, "name": name, "identical": bool(ident)})
+        calls.append((fname, args, want, qs[-1]))
 
     def by_name(api, version, etname, valid=True):
         et = ets.get(etname, etname)
@@ -155,6 +158,14 @@ def make_queries(snap: dict, seed: int, thorough: bool) -> list[dict]:
         if (s, "request") in by_api or (s, "header") in by_api or (s, "data") in by_api:
             continue
         by_name(s, 0, "request")
+    # a lookup is a function of its arguments: the same queries again in a different order, each one
+    # twice in a row (the answer must not depend on what was looked up before, or how often)
+    again = list(calls)
+    rng.shuffle(again)
+    for fname, args, want, first in again[: len(again) if thorough else 1500]:
+        for rep in ("r", "rr"):
+            out, mod, name, ident = run(getattr(ix, fname), args, want)
+            qs.append(dict(first, id=first["id"] + rep, out=out, module=mod, name=name, identical=bool(ident)))
     return qs
 
 
